@@ -186,6 +186,14 @@ PROGRAMS = [
     # a free symbol next to a quantifier that binds the same symbol (scope must not leak)
     ('all(str(x) != "a" for x in *<v>) and str(<v>) != "0"',
      AND(FORALL("x", top(sel_sym("<v>")), truthy_all([], lambda x: S(x) != "a")), truthy_all([sel_sym("<v>")], lambda v: S(v) != "0"))),
+    # expression (not comparison) constraints whose evaluation raises for some combinations
+    ('bool(int(<k>) + 1)', truthy_all([sel_sym("<k>")], lambda k: bool(I(k) + 1))),
+    ('str(int(<v>)).isdigit()', truthy_all([sel_sym("<v>")], lambda v: str(I(v)).isdigit())),
+    # multiplicity of .. matches (structurally identical descendants are distinct matches)
+    ('len(*<v>..<d>) == 2', truthy_all([count(sel_desc("<v>", "<d>"))], lambda n: n == 2)),
+    # existential quantification over a selection that is empty
+    ('exists <x> in <rec>.<flag>: str(<x>) == "!"', EXISTS("x", top(sel_child("<rec>", "<flag>")), truthy_all([], lambda x: S(x) == "!"))),
+    ('any(str(x) != "?" for x in *<rec>.<flag>)', EXISTS("x", top(sel_child("<rec>", "<flag>")), truthy_all([], lambda x: S(x) != "?"))),
     ('any(str(v) == "5" for v in *<rec>..<v>) and int(<v>) >= 0',
      AND(EXISTS("x", top(sel_desc("<rec>", "<v>")), truthy_all([], lambda x: S(x) == "5")), truthy_all([sel_sym("<v>")], lambda v: I(v) >= 0))),
 ]
